@@ -53,14 +53,14 @@ func (g *gen) resolve(f *mFunc) *mFunc {
 	return f
 }
 
-var writeOps = map[string]bool{"gset": true, "gsetf": true, "g2t": true, "st8": true, "st32": true, "st64": true, "mgrow": true,
+var writeOps = map[string]bool{"galias": true, "talias": true, "tgalias": true, "gset": true, "gsetf": true, "g2t": true, "st8": true, "st32": true, "st64": true, "mgrow": true,
 	"mfill": true, "mcopy": true, "minit": true, "tgrow": true, "tset": true, "tfill": true, "tcopy": true, "tinit": true,
 	"xgrow": true, "xset": true, "leaf1": true}
 
 // objOf: the object a function of instance in touches, whether in imported it.
 func objOf(in *mInst, s Sem) (id int, imported bool, owners int, kind string) {
 	switch s.Op {
-	case "gget", "gset", "gsetf":
+	case "gget", "gset", "gsetf", "galias":
 		gl := in.globs[s.A]
 		return gl.id, s.A < in.lay.NImpG, gl.owners, "global"
 	case "leaf1":
@@ -82,7 +82,7 @@ func objOf(in *mInst, s Sem) (id int, imported bool, owners int, kind string) {
 			t := in.tabs[in.lay.FT0]
 			return t.id, in.lay.FT0 < in.lay.NImpT, t.owners, "table"
 		}
-	case "tsize", "tgrow", "tset", "tcall", "rtcall", "tisnull", "tfill", "tcopy", "tinit", "xgrow", "xset", "xget":
+	case "tsize", "tgrow", "tset", "talias", "tgalias", "tcall", "rtcall", "tisnull", "tfill", "tcopy", "tinit", "xgrow", "xset", "xget":
 		t := in.tabs[s.A]
 		return t.id, s.A < in.lay.NImpT, t.owners, "table"
 	}
@@ -197,7 +197,9 @@ func (g *gen) call(in *mInst, name string, args ...uint64) ([]uint64, string) {
 	if trap != "" {
 		g.count("trap_" + trap[5:])
 	}
-	g.push(Step{Kind: "call", Inst: in.name, Fn: name, Args: args, Exp: res, ExpErr: trap, RT: in.lay.Funcs[fidx].Type.Results, Tag: tag})
+	// galias only READS through the second index: a stale read does not make the state diverge, the run goes on
+	g.push(Step{Kind: "call", Inst: in.name, Fn: name, Args: args, Exp: res, ExpErr: trap, RT: in.lay.Funcs[fidx].Type.Results, Tag: tag,
+		Soft: eff.host == "" && eff.sem.Op == "galias" && in.funcs[fidx] == eff})
 	return res, trap
 }
 
@@ -660,6 +662,16 @@ func (g *gen) argsFor(f *mFunc) []uint64 {
 		return g.val(in.globs[s.A].typ.Type)
 	case "gsetf":
 		return []uint64{k()}
+	case "galias":
+		return g.val(in.globs[s.A].typ.Type)
+	case "talias":
+		return []uint64{g.slot(in.tabs[s.A]), k()}
+	case "tgalias":
+		n := uint64(r.Intn(3))
+		if len(in.tabs[s.A].slots) > 12 {
+			n = 0
+		}
+		return []uint64{n}
 	case "g2t":
 		return []uint64{g.slot(in.tabs[s.B])}
 	case "ld8", "ld32", "ld64":
@@ -1079,6 +1091,12 @@ func (g *gen) genModule(name string) *ModSpec {
 			spec.Imports = append(spec.Imports, ImportSpec{Mod: x.in.name, Name: x.name, Ext: Ext{Kind: wenc.ExtTable, Table: tt}})
 			tabs = append(tabs, x.e.tab)
 			tabTypes = append(tabTypes, tt)
+			if r.Chance(1, 5) { // the same table once more under another index
+				spec.Imports = append(spec.Imports, spec.Imports[len(spec.Imports)-1])
+				tabs = append(tabs, x.e.tab)
+				tabTypes = append(tabTypes, tt)
+				g.count("same_table_imported_twice")
+			}
 		} else {
 			tt := wenc.TableType{Elem: want.elem, Lim: wenc.Limits{Min: uint32(1 + r.Intn(4))}}
 			if r.Bool() {
@@ -1105,6 +1123,22 @@ func (g *gen) genModule(name string) *ModSpec {
 			x := gp[r.Intn(len(gp))]
 			spec.Imports = append(spec.Imports, ImportSpec{Mod: x.in.name, Name: x.name, Ext: Ext{Kind: wenc.ExtGlobal, Global: x.e.glob.typ}})
 			impGlobs = append(impGlobs, x.e.glob)
+		}
+	}
+	// the same global once more under another index (writes through one index are reads through the other)
+	if len(impGlobs) > 0 && r.Chance(1, 3) {
+		k := r.Intn(len(impGlobs))
+		n := 0
+		for _, im := range spec.Imports {
+			if im.Ext.Kind == wenc.ExtGlobal {
+				if n == k {
+					spec.Imports = append(spec.Imports, im)
+					impGlobs = append(impGlobs, impGlobs[k])
+					g.count("same_global_imported_twice")
+					break
+				}
+				n++
+			}
 		}
 	}
 	nImpG = len(impGlobs)
